@@ -477,7 +477,7 @@ structure Roots where
   query : Option String := none
   mutation : Option String := none
   subscription : Option String := none
-  deriving Repr, Inhabited, BEq
+  deriving Repr, Inhabited, BEq, DecidableEq
 
 def Roots.get (r : Roots) : String → Option String
   | "query" => r.query | "mutation" => r.mutation | "subscription" => r.subscription | _ => none
